@@ -107,6 +107,7 @@ public:
             this->set_handle(h);
             this->_awaiter.store(this, std::memory_order_relaxed);
             p._future = this;
+            COCLS_VERIF_POINT(async_await_suspend);
             return start_handle;
         }
 
@@ -222,9 +223,12 @@ public:
             //set future resolved - this must be done before frame is destroyed
             //as there can be still connection to the frame before resolution
             //once the future is resolved, there should be no connection at all.
+            COCLS_VERIF_POINT(fin_pre_resolve);
             suspend_point<void> sp = f ? f->resolve():suspend_point<void>();
             //now we can destroy our frame
+            COCLS_VERIF_POINT(fin_pre_destroy);
             me.destroy();
+            COCLS_VERIF_POINT(fin_post_destroy);
             //return handle returned by resolve();
             return sp.pop();
         }
